@@ -39,6 +39,10 @@ pub struct Case {
     /// 2 before every client step, 3 both - each ahead of whatever genuine frames arrived in that interval
     #[serde(default)]
     pub noise: u8,
+    /// another client of the same server: 0 none; 1 connects and disconnects before the observed client starts (its
+    /// 20 s linger timer is then pending on the server); 2 does so again every few seconds during the script
+    #[serde(default)]
+    pub bystander: u8,
 }
 
 pub struct C10;
@@ -74,7 +78,7 @@ impl Check for C10 {
             proptest::collection::vec(op, 1..tier.pick(50, 150)),
             (prop_oneof![3 => Just(0u32), 2 => 30u32..600, 1 => 600u32..tier.pick(3600, 7200)], prop_oneof![3 => Just(0u8), 1 => 1u8..4]),
         )
-            .prop_map(|((seed, server_timeout_ms, client_timeout_ms, server_keepalive, client_keepalive), (l0, l1), (syn_lost, synack_lost), period_us, ops, (idle_s, noise))| Case { seed, server_timeout_ms, client_timeout_ms, server_keepalive, client_keepalive, latency_us: [l0, l1], syn_lost, synack_lost, period_us, ops, idle_s, noise })
+            .prop_map(|((seed, server_timeout_ms, client_timeout_ms, server_keepalive, client_keepalive), (l0, l1), (syn_lost, synack_lost), period_us, ops, (idle_s, noise))| Case { seed, server_timeout_ms, client_timeout_ms, server_keepalive, client_keepalive, latency_us: [l0, l1], syn_lost, synack_lost, period_us, ops, idle_s, noise, bystander: match seed % 5 { 0 => 1, 1 => 2, _ => 0 } })
             .boxed()
     }
 
@@ -87,7 +91,7 @@ impl Check for C10 {
     }
 
     fn rule(&self) -> String {
-        "case = World with one real Client and Server: generated active_timeout_ms (1..60 s) and keepalive settings on both sides, link latencies 0..300 ms, the first 0..12 SYNs and / or SYN-ACKs lost, a base step cadence of 1 ms..400 ms, then a generated sequence of ticks (0..8 s apart, either endpoint sometimes not stepping), runs of regular stepping, sends in both directions, and blackouts of 0.1..70 s in either or both directions (placing last-frame arrivals and deadlines at arbitrary offsets from the steps), optionally with an undecodable datagram first in line before every server and / or client step, optionally followed by an idle period of up to an hour (two in thorough) on a loss-free link. Oracle per endpoint, with e the time it became active and p the time of the step in which it last processed a valid data / sync / ack frame from its peer: (a) a Timeout on an active connection at step time t requires t - max(e, p) >= active_timeout_ms; (b) the first step with t - max(e, p) >= active_timeout_ms must report it; (c) with keepalive on, on loss-free links and 3*max(interval, 2 s) + 4*(latency + largest step gap) <= active_timeout_ms, no timeout during the idle period; (d) a client whose handshake never completes reports Error(Timeout) no earlier than 22 000 ms after connect() and no later than that plus 12 step gaps, having sent exactly 11 SYNs; the server sends at most 1 + 10 SYN-ACKs per pending entry and reports its handshake timeout no earlier than 22 000 ms after the SYN; (e) a disconnect attempt (disconnect() / disconnect_now() from either side at a generated moment) sends at most 1 + 10 Disconnect frames, at least 2 s apart, and gives up with Error(Timeout) no earlier than 22 000 ms after the first. Non-trivial = a deadline fell within two step gaps of a frame arrival, or the handshake needed at least one retry. Distinct = distinct serialised case.".into()
+        "case = World with one observed real Client and a Server (2 cases in 5 with bystanders: other clients that connect and disconnect before, or every few seconds during, the script - their 20 s linger timers sit in the server's timer queue): generated active_timeout_ms (1..60 s) and keepalive settings on both sides, link latencies 0..300 ms, the first 0..12 SYNs and / or SYN-ACKs lost, a base step cadence of 1 ms..400 ms, then a generated sequence of ticks (0..8 s apart, either endpoint sometimes not stepping), runs of regular stepping, sends in both directions, and blackouts of 0.1..70 s in either or both directions (placing last-frame arrivals and deadlines at arbitrary offsets from the steps), optionally with an undecodable datagram first in line before every server and / or client step, optionally followed by an idle period of up to an hour (two in thorough) on a loss-free link. Oracle per endpoint, with e the time it became active and p the time of the step in which it last processed a valid data / sync / ack frame from its peer: (a) a Timeout on an active connection at step time t requires t - max(e, p) >= active_timeout_ms; (b) the first step with t - max(e, p) >= active_timeout_ms must report it; (c) with keepalive on, on loss-free links and 3*max(interval, 2 s) + 4*(latency + largest step gap) <= active_timeout_ms, no timeout during the idle period; (d) a client whose handshake never completes reports Error(Timeout) no earlier than 22 000 ms after connect() and no later than that plus 12 step gaps, having sent exactly 11 SYNs; the server sends at most 1 + 10 SYN-ACKs per pending entry and reports its handshake timeout no earlier than 22 000 ms after the SYN; (d') SYN-ACK repeats of one pending entry are 2 s apart - not earlier, and not later than 2 s plus two step gaps; (e) a disconnect attempt (disconnect() / disconnect_now() from either side at a generated moment) sends at most 1 + 10 Disconnect frames, 2 s apart (not earlier; not later than 2 s plus two step gaps), and gives up with Error(Timeout) no earlier than 22 000 ms after the first. Non-trivial = a deadline fell within two step gaps of a frame arrival, or the handshake needed at least one retry. Distinct = distinct serialised case.".into()
     }
 
     fn assumptions(&self) -> Vec<String> {
@@ -109,6 +113,29 @@ impl Check for C10 {
         };
         let ccfg = EpCfg { active_timeout_ms: c.client_timeout_ms, keepalive: c.client_keepalive.is_some(), keepalive_interval_ms: c.client_keepalive.unwrap_or(5000), ..EpCfg::default() };
         let mut w = World::new(c.seed, &scfg);
+        // bystanders: other clients of the same server whose timers sit in the server's queue
+        let mut bystanders: Vec<usize> = Vec::new();
+        // (returns the server steps it made, as (event seq right after the step, time))
+        let run_bystander = |w: &mut World, bystanders: &mut Vec<usize>| -> Vec<(u64, u64)> {
+            let mut steps = Vec::new();
+            let b = w.add_client(&EpCfg::default(), LinkState::default());
+            bystanders.push(b);
+            for round in 0..12 {
+                if round == 6 {
+                    if let Some(cl) = w.clients[b].client.as_mut() {
+                        cl.disconnect_now();
+                    }
+                }
+                w.advance(5_000);
+                w.step_server();
+                steps.push((w.ev, w.now_us));
+                w.step_client(b);
+            }
+            steps
+        };
+        if c.bystander > 0 {
+            let _ = run_bystander(&mut w, &mut bystanders);
+        }
         let mut link = LinkState { latency_us: c.latency_us, ..LinkState::default() };
         link.fates[0] = (0..c.syn_lost).map(|_| Fate::Drop).collect();
         link.fates[1] = (0..c.synack_lost).map(|_| Fate::Drop).collect();
@@ -142,7 +169,14 @@ impl Check for C10 {
             }
         };
 
+        let mut last_bystander_us = w.now_us;
         for op in c.ops.iter() {
+            if c.bystander == 2 && w.now_us > last_bystander_us + 7_000_000 && bystanders.len() < 12 {
+                // (the bystander's own steps also step the server: record them)
+                let made = run_bystander(&mut w, &mut bystanders);
+                steps_s.extend(made);
+                last_bystander_us = w.now_us;
+            }
             match op {
                 Op::Tick { dt_us, server, client } => tick(&mut w, *dt_us as u64, *server, *client, &mut steps_c, &mut steps_s),
                 Op::Run { count } => {
@@ -277,6 +311,21 @@ impl Check for C10 {
                 return CaseResult::fail("oracle:c10:handshake_never_times_out:client", format!("client neither connected nor reported a timeout by t={} us ({} SYNs sent)", w.now_us, syns.len()));
             }
         }
+        // largest gap between consecutive steps of an endpoint that overlaps [t0, t1] (a timer cannot fire between steps)
+        let gap_between = |steps: &Vec<(u64, u64)>, t0: u64, t1: u64| -> u64 {
+            let mut g = 0u64;
+            let mut prev = 0u64;
+            for (_, t) in steps.iter() {
+                if *t >= t0 && prev <= t1 {
+                    g = g.max(*t - prev);
+                }
+                prev = *t;
+                if prev > t1 {
+                    break;
+                }
+            }
+            g.max(1000)
+        };
         // server: SYN-ACK count per attempt (same nonce)
         let mut synack_by_nonce: std::collections::HashMap<u32, Vec<u64>> = std::collections::HashMap::new();
         for r in w.wire.iter().filter(|r| r.to == caddr) {
@@ -289,6 +338,13 @@ impl Check for C10 {
             // duplicate ACK handling may re-send a SYN-ACK? no: the server only resends on its timer
             if times.len() > 11 {
                 return CaseResult::fail("oracle:c10:synack_count", format!("server sent {} SYN-ACKs (nonce {nonce}) for one pending entry; the budget is 1 + 10", times.len()));
+            }
+            // ... and 2 s apart, not later (whatever other connections' timers the server is keeping)
+            for p in times.windows(2) {
+                let allowed = 2_000_000 + 2 * gap_between(&steps_s, p[0], p[1]) + 2000;
+                if p[1] > p[0] + allowed {
+                    return CaseResult::fail("oracle:c10:synack_resend_late", format!("server repeated its SYN-ACK (nonce {nonce}) {} us after the previous copy (t={} us) although it stepped at least every {} us in between; repeats are 2 s apart", p[1] - p[0], p[1], gap_between(&steps_s, p[0], p[1])));
+                }
             }
         }
         for (_, t, e) in w.server_events.iter() {
@@ -323,11 +379,20 @@ impl Check for C10 {
                 return CaseResult::fail(format!("oracle:c10:disconnect_count:{name}"), format!("{name} sent {} Disconnect frames for one attempt; the budget is 1 + 10", frames.len()));
             }
             for p in frames.windows(2) {
+                let steps = if name == "client" { &steps_c } else { &steps_s };
+                let allowed = 2_000_000 + 2 * gap_between(steps, p[0].1, p[1].1) + 2000;
+                if p[1].1 > p[0].1 + allowed {
+                    return CaseResult::fail(format!("oracle:c10:disconnect_resend_late:{name}"), format!("{name} re-sent its disconnect request {} us after the previous one (at t={} us) although it stepped at least every {} us in between; resends are 2 s apart", p[1].1 - p[0].1, p[1].1, gap_between(steps, p[0].1, p[1].1)));
+                }
                 if p[1].1 + 1000 < p[0].1 + 2_000_000 {
                     return CaseResult::fail(format!("oracle:c10:disconnect_resend_spacing:{name}"), format!("{name} re-sent its disconnect request {} us after the previous one (at t={} us); resends are 2 s apart", p[1].1 - p[0].1, p[1].1));
                 }
             }
             if let Some(t) = timeout_ev {
+                let steps = if name == "client" { &steps_c } else { &steps_s };
+                if t > frames[0].1 + HS_BUDGET_US + 12 * gap_between(steps, frames[0].1, t) + 2000 {
+                    return CaseResult::fail(format!("oracle:c10:disconnect_timeout_late:{name}"), format!("{name} gave up its disconnect attempt only at t={t} us, {} us after the request was first sent; the retry budget is 22 000 ms", t - frames[0].1));
+                }
                 if t + 1000 < frames[0].1 + HS_BUDGET_US {
                     return CaseResult::fail(
                         format!("oracle:c10:disconnect_timeout_early:{name}"),
@@ -386,7 +451,7 @@ impl Check for C10 {
             let lat = (c.latency_us[0].max(c.latency_us[1])) as u64;
             // a timeout only counts while the peer is still alive
             let c_first_term = c_events.iter().find(|(_, _, e)| matches!(e, CEv::Disconnect | CEv::Error(_))).map(|p| p.1);
-            let s_first_term = w.server_events.iter().find(|(_, _, e)| matches!(e, SEv::Disconnect(_) | SEv::Error(..))).map(|p| p.1);
+            let s_first_term = w.server_events.iter().find(|(_, _, e)| matches!(e, SEv::Disconnect(a) | SEv::Error(a, _) if *a == caddr)).map(|p| p.1);
             let peer_dead_first = [s_first_term.zip(c_first_term).map_or(false, |(s, c)| s < c), c_first_term.zip(s_first_term).map_or(false, |(c, s)| c < s)];
             for (which, (name, ka_self, ka_peer, timeout_ms, timed_out)) in [
                 // only a timeout whose whole silence window lies inside the loss-free idle phase counts
